@@ -19,7 +19,7 @@ import re
 from typing import Any, Dict, List, Optional, Set, Tuple
 
 from sa import paths
-from sa.db import DB, AnalysisError, FuncInfo, norm, walk_no_nested
+from sa.db import ANY, DB, AnalysisError, FuncInfo, norm, walk_no_nested
 from sa.modes import Modes
 from sa.report import Report
 from sa.rules.c09 import analyse
@@ -146,6 +146,8 @@ def run(db: DB, rep: Report) -> None:
     rep.rule("N6", "the position variable is bound whenever the interval code needs it", 1)
     from sa.rules.c16 import check_need_enumerate
     check_need_enumerate(db, rep, "N6")
+    from sa.rules.c16 import check_pos_paths
+    check_pos_paths(db, rep, "N6", hm)
 
     # ---- N7: every index variable of a projected expression is renamed by its own partitioning
     rep.rule("N7", "bottom-rank projection renames each index variable by that variable's own partitioning", 1)
@@ -170,6 +172,114 @@ def run(db: DB, rep: Report) -> None:
                   "whether an index variable of the projected expression is renamed to its bottom partition "
                   "level depends on %s, which is not derived from that variable: a variable with its own "
                   "partitioning keeps its root name, which no loop binds" % sorted(outside))
+
+    # ---- N8: the statement that binds <Tensor>_<init ranks> for the merger metrics exists
+    # whenever the reader's data (the merger bindings) asks for it
+    rep.rule("N8", "the 'metrics' swizzle that binds a merger's input exists whenever metrics "
+             "collection and the merger bindings ask for it", 1)
+    bsr = db.func("teaal.ir.flow_graph.FlowGraph.__build_swizzle_root_fiber")
+    msw = [n for n in walk_no_nested(bsr.node) if isinstance(n, ast.Call) and norm(n.func) == "SwizzleNode"
+           and any(isinstance(a, ast.Constant) and a.value == "metrics" for a in n.args)]
+    if len(msw) != 1:
+        raise AnalysisError("the SwizzleNode(..., 'metrics') of FlowGraph.__build_swizzle_root_fiber was not found")
+    # names derived from Metrics.get_merger_init_ranks (what the reader iterates)
+    derived: Set[str] = set()
+    for n in walk_no_nested(bsr.node):
+        if isinstance(n, ast.Assign) and isinstance(n.targets[0], ast.Name) and \
+                "get_merger_init_ranks" in paths.called_names([n.value]):
+            derived.add(n.targets[0].id)
+    for t, pol in paths.guards(msw[0], stop=bsr.node):
+        for a, p in paths.conjuncts(t, pol):
+            names = paths.load_names(a) - {"self", "len"}
+            attrs = paths.self_attrs(a)
+            calls = paths.called_names([a])
+            ok = names <= derived and attrs <= {"metrics"} and calls <= {"get_merger_init_ranks", "len"}
+            rep.check("N8", ok, db.loc(a), bsr.short, "metrics-swizzle-guard:" + norm(a)[:50],
+                      "guard %s depends only on the metrics mode and the merger's own bindings" % norm(a)[:50],
+                      "the statement binding <Tensor>_<init-ranks> for a merger is emitted only when %s%s, a "
+                      "condition the collector does not test when it emits Compute.numSwaps(<Tensor>_<init-ranks>, "
+                      "...) for every merger binding: the name can be read unbound" %
+                      ("" if p else "not ", norm(a)[:60]))
+
+    # ---- N9: collections are probed with keys of the kind they are keyed by
+    rep.rule("N9", "membership tests and look-ups probe a collection with a key of its key kind "
+             "(rank tuples vs rank names)", 120)
+
+    def kind(t) -> Optional[str]:
+        if not t:
+            return None
+        if t[0] in ("str", "int", "bool", "float"):
+            return "scalar"
+        if t[0] in ("tuple", "list"):
+            return "sequence"
+        return None
+
+    def key_type(t):
+        if t and t[0] == "dict":
+            return t[1]
+        if t and t[0] in ("set", "list"):
+            return t[1]
+        return None
+
+    def binding_kinds(nm: str, f: FuncInfo) -> Set[Any]:
+        """the types of all bindings of local nm in f (None: a binding of unknown type)"""
+        out: Set[Any] = set()
+
+        def known(t):
+            return t if t and t != ANY else None
+        for x in walk_no_nested(f.node):
+            if isinstance(x, ast.Assign):
+                for tg in x.targets:
+                    if isinstance(tg, ast.Name) and tg.id == nm:
+                        out.add(known(db.type_of(x.value, f)))
+                    elif any(isinstance(y, ast.Name) and y.id == nm for y in ast.walk(tg)):
+                        out.add(None)
+            elif isinstance(x, ast.AnnAssign) and isinstance(x.target, ast.Name) and x.target.id == nm:
+                out.add(known(db.ann_type(f.module, x.annotation)))
+            elif isinstance(x, (ast.For, ast.comprehension)):
+                if isinstance(x.target, ast.Name) and x.target.id == nm:
+                    it_t = db.type_of(x.iter, f)
+                    out.add(known(key_type(it_t)) if it_t and it_t[0] in ("dict", "set", "list") else None)
+                elif any(isinstance(y, ast.Name) and y.id == nm for y in ast.walk(x.target)):
+                    out.add(None)
+            elif isinstance(x, (ast.AugAssign, ast.NamedExpr)) and isinstance(x.target, ast.Name) and \
+                    x.target.id == nm:
+                out.add(None)
+        return out
+
+    def settled(e: ast.AST, f: FuncInfo) -> bool:
+        """every local in e has one kind over all of its bindings in f"""
+        for x in ast.walk(e):
+            if isinstance(x, ast.Name) and x.id not in f.call_params and x.id != "self":
+                ks = binding_kinds(x.id, f)
+                if len(ks) > 1 or None in ks:
+                    return False
+        return True
+
+    for f in db.all_functions(["teaal."]):
+        for x in walk_no_nested(f.node):
+            pairs = []
+            if isinstance(x, ast.Compare) and len(x.ops) == 1 and isinstance(x.ops[0], (ast.In, ast.NotIn)):
+                pairs.append((x.left, x.comparators[0], False))
+            if isinstance(x, ast.Subscript) and not isinstance(x.slice, ast.Slice):
+                pairs.append((x.slice, x.value, True))
+            if isinstance(x, ast.Call) and isinstance(x.func, ast.Attribute) and \
+                    x.func.attr in ("get", "pop", "setdefault") and x.args:
+                pairs.append((x.args[0], x.func.value, True))
+            for probe, cont, needs_dict in pairs:
+                ct = db.type_of(cont, f)
+                if needs_dict and (not ct or ct[0] != "dict"):
+                    continue
+                kk, pk = kind(key_type(ct)), kind(db.type_of(probe, f))
+                if kk is None or pk is None:
+                    continue
+                if kk != pk and not (settled(probe, f) and settled(cont, f)):
+                    continue    # a local re-used with several types: not decided here
+                rep.check("N9", kk == pk, db.loc(x), f.short, "key-kind:" + norm(x)[:60],
+                          "%s: %s key probed with a %s" % (norm(x)[:50], kk, pk),
+                          "%s probes a collection keyed by a %s (%s) with a %s (%s): the test can never "
+                          "succeed, so the decision it guards silently always goes one way" %
+                          (norm(x)[:70], kk, norm(cont)[:40], pk, norm(probe)[:40]))
 
     # ---- N3 --------------------------------------------------------------------
     rep.rule("N3", "receiver temporary is named before the next temporary is allocated", 4)
@@ -301,6 +411,16 @@ def mutants(db: DB):
         M("clone starts from current ranks", col,
           "                final_tensor = Tensor(\n                    output.root_name(), output.get_init_ranks())",
           "                final_tensor = Tensor(\n                    output.root_name(), output.get_ranks())", "N5"),
+        M("payload returns early for output-only loops", eq,
+          "        payload: Payload\n        if inputs:\n            # Construct the term payloads",
+          "        if output and not inputs:\n            return PVar(output.fiber_name())\n\n"
+          "        payload: Payload\n        if inputs:\n            # Construct the term payloads", "N6"),
+        M("metrics swizzle only when the tensor is re-ordered", "teaal/ir/flow_graph.py",
+          "            if init_ranks:\n                metrics_swizzle_node",
+          "            if init_ranks and static:\n                metrics_swizzle_node", "N8"),
+        M("rank name probed against rank-tuple keys", col,
+          "                if (static_rank,) in part_ir.get_dyn_parts():",
+          "                if static_rank in part_ir.get_dyn_parts():", "N9"),
         Mutant("benign: both sides renamed", [Edit(eq, "\"inputs_\"", "\"eager_inputs_\"", count=2)], (),
                benign=True),
     ]
